@@ -6,4 +6,5 @@ let () =
   | "hash" -> Hashmodel.run_hash ic
   | "graph" -> Graphmodel.run_graph ic
   | "runcache" -> Runcachemodel.run_runcache ic
+  | "find" -> Findmodel.run_find ic
   | m -> prerr_endline ("unknown mode " ^ m); exit 2
